@@ -321,3 +321,11 @@ def run(fx, rep, tier):
     # the sources file is shipped data too: a decoded source list must keep the id -> position map it was built with
     from . import c16
     c16.r9_sources(facts, rep, rule="C17-R5")
+    # what is stored in the index is the shipped constant, encoded as it was decoded (not a copy edited on the way)
+    rep.rule("C17-R6", "the payload stored for a constant is the encoding of that constant as it was decoded from the shipped file "
+                       "(summary of Db::load_bytes over a symbolic document, shared with C16-R1)")
+    s6 = type(rep)(rep.prop, rep.tier)
+    c16.r1_load_bytes(facts, s6)
+    for o in s6.obls:
+        o["rule"] = "C17-R6"
+        rep.obls.append(o)
